@@ -229,4 +229,61 @@ def limbLoop (nR resCols resCol nA aCols aCol lo hi : Nat) : List Acc :=
   (List.range' lo (hi - lo)).flatMap (fun j =>
     [wt 0 (nR * (j * resCols + resCol)) nR, rd 1 (nA * (j * aCols + aCol)) nR])
 
+/-! ### the `span = n >> 2` loop pattern of znx_avx/*.rs and fft64/reim/*.rs
+
+Every element-wise AVX kernel takes `n` from ONE slice, runs `span = n >> 2` iterations of 4-lane loads / stores on every
+operand and then either a scalar tail on `[span << 2, n)` (znx_avx) or, when `n % 4 ≠ 0`, hands the whole call to the
+reference kernel (reim) — the same element set. `ops` = the operands as (buffer id, written?) -/
+
+def simdOperand (b : Nat) (wr : Bool) (n : Nat) : List Acc :=
+  (List.range (n >>> 2)).map (fun i => ⟨b, 4 * i, 4 * i + 4, wr⟩) ++
+  (if n % 4 ≠ 0 then [⟨b, (n >>> 2) <<< 2, n, wr⟩] else [])
+
+def simdKernel (ops : List (Nat × Bool)) (n : Nat) : List Acc := ops.flatMap (fun o => simdOperand o.1 o.2 n)
+
+/-- operand roles of the kernels of poulpy-cpu-avx/src/znx_avx/{add,sub,neg,mul,normalization}.rs and
+fft64/reim/{fft_vec_avx2_fma,conversion}.rs (buffer 0 = first slice argument, 1 = second, 2 = third) -/
+def avxElementwiseKernels : List (String × List (Nat × Bool)) :=
+  [("znx_add_avx", [(0, true), (1, false), (2, false)]), ("znx_add_assign_avx", [(0, true), (0, false), (1, false)]),
+   ("znx_sub_avx", [(0, true), (1, false), (2, false)]), ("znx_sub_assign_avx", [(0, true), (0, false), (1, false)]),
+   ("znx_sub_negate_assign_avx", [(0, true), (0, false), (1, false)]),
+   ("znx_negate_avx", [(0, true), (1, false)]), ("znx_negate_assign_avx", [(0, true), (0, false)]),
+   ("znx_mul_power_of_two_avx", [(0, true), (1, false)]), ("znx_mul_power_of_two_assign_avx", [(0, true), (0, false)]),
+   ("znx_mul_add_power_of_two_avx", [(0, true), (0, false), (1, false)]),
+   ("znx_extract_digit_addmul_avx", [(0, true), (0, false), (1, true), (1, false)]),
+   ("znx_normalize_digit_avx", [(0, true), (0, false), (1, true), (1, false)]),
+   ("znx_normalize_first_step_carry_only_avx", [(0, false), (1, true)]),
+   ("znx_normalize_first_step_assign_avx", [(0, true), (0, false), (1, true)]),
+   ("znx_normalize_first_step_avx", [(0, true), (0, false), (1, false), (2, true)]),
+   ("znx_normalize_middle_step_assign_avx", [(0, true), (0, false), (1, true), (1, false)]),
+   ("znx_normalize_middle_step_carry_only_avx", [(0, false), (1, true), (1, false)]),
+   ("znx_normalize_middle_step_avx", [(0, true), (0, false), (1, false), (2, true), (2, false)]),
+   ("znx_normalize_middle_step_sub_avx", [(0, true), (0, false), (1, false), (2, true), (2, false)]),
+   ("znx_normalize_final_step_assign_avx", [(0, true), (0, false), (1, false)]),
+   ("znx_normalize_final_step_avx", [(0, true), (0, false), (1, false), (2, false)]),
+   ("znx_normalize_final_step_sub_avx", [(0, true), (0, false), (1, false), (2, false)]),
+   ("reim_add_avx2_fma", [(0, true), (1, false), (2, false)]), ("reim_add_assign_avx2_fma", [(0, true), (0, false), (1, false)]),
+   ("reim_sub_avx2_fma", [(0, true), (1, false), (2, false)]), ("reim_sub_assign_avx2_fma", [(0, true), (0, false), (1, false)]),
+   ("reim_sub_negate_assign_avx2_fma", [(0, true), (0, false), (1, false)]),
+   ("reim_negate_avx2_fma", [(0, true), (1, false)]), ("reim_negate_assign_avx2_fma", [(0, true), (0, false)]),
+   ("reim_from_znx_i64_bnd50_fma", [(0, true), (1, false)]), ("reim_from_znx_i64_masked_bnd50_fma", [(0, true), (1, false)]),
+   ("reim_to_znx_i64_bnd63_avx2_fma", [(0, true), (1, false)]), ("reim_to_znx_i64_assign_bnd63_avx2_fma", [(0, true), (0, false)]),
+   ("reim_to_znx_i64_avx2_bnd50_fma", [(0, true), (1, false)])]
+
+/-- `znx_automorphism_avx(p, res, a)` for `n ≥ 4` a power of two: `span` iterations, each a 4-lane gather of
+`a[(t + l·inv) & (2n−1) & (n−1)]` (`inv = p⁻¹ mod 2n`, `t = 4i·inv`) and a 4-lane store to `res[4i..4i+4)` -/
+def automorphismFoot (n inv : Nat) : List Acc :=
+  (List.range (n >>> 2)).flatMap (fun i =>
+    (List.range 4).map (fun l => rd 1 (((4 * i + l) * inv) % (2 * n) % n) 1) ++ [wt 0 (4 * i) 4])
+
+/-- `znx_switch_ring_avx(res, a)`, `n_in > n_out ≥ 4` (down-sampling gather, stride `gap = n_in / n_out`) -/
+def switchRingDown (nIn nOut : Nat) : List Acc :=
+  (List.range (nOut >>> 2)).flatMap (fun i =>
+    (List.range 4).map (fun l => rd 1 ((4 * i + l) * (nIn / nOut)) 1) ++ [wt 0 (4 * i) 4])
+
+/-- `n_out > n_in ≥ 4` (up-sampling: 4-lane load of `a[i..i+4)`, four scalar stores `res[(i+l)·gap]`) -/
+def switchRingUp (nIn nOut : Nat) : List Acc :=
+  (List.range (nIn >>> 2)).flatMap (fun i =>
+    rd 1 (4 * i) 4 :: (List.range 4).map (fun l => wt 0 ((4 * i + l) * (nOut / nIn)) 1))
+
 end Kern
